@@ -39,7 +39,8 @@ MANIFEST = dict(
           "- 0.83 - dip, delta the sunrise equation's own declination for that day (the listed midnight-sun finding, "
           "characterised), hence never under |lat| + 23.44 + 0.83 + dip <= 90; times_rise_transit_set returns no times iff the body at its middle position never reaches h0. "
           "The model's binary64 instantiation agrees with CPython bit for bit on every sampled call (the season loop "
-          "fed the solar longitudes the implementation saw). All numerical clauses (1e-5 degree, 88-95 d, "
+          "both fed the solar longitudes the implementation saw and run from the year alone on the C08 model of the "
+          "Sun's apparent position). All numerical clauses (1e-5 degree, 88-95 d, "
           "365.2-365.3 d, 25/17.5 min, 45 s/day, 1 degree, 0.005 degree) are measured on the implementation, not "
           "proved: all years -1000..3000 x 4 seasons, 1200 whole years of daily equation-of-time values, 80000 "
           "sunrise/sunset cases and 480000 synthetic bodies in thorough; one pass of the times_rise_transit_set "
@@ -66,6 +67,9 @@ TRUSTED = [
     'Epoch.leap_seconds(year, month) and alpha / nutation / obliquity of equation_of_time enter the model as input '
     'values computed by the implementation',
     'loop fuel of the season model in the F tie = number of longitude evaluations the implementation made + 1',
+    'second season tie (get_equinox_solstice_year): the same loop run from (year, target) alone, the solar longitude '
+    'being the C08 model of Sun.apparent_geocentric_position (templates/SunEarth.lean), fuel 64; it must return the '
+    'implementation\'s instant bit for bit',
 ]
 ASSUMPTIONS = [
     'an Epoch returned by rise_set is read as a TT instant (the documented convention of Epoch): the Sun is computed at '
@@ -135,6 +139,9 @@ def season_call(ctx, Sun, year, target, klass):
     if isinstance(year, int) and not isinstance(year, bool) and isinstance(target, str):
         ctx.case('get_equinox_solstice', [year, target, list(rec.jdes), list(rec.lons)], out, q=None,
                  klass='season/' + klass)
+        # the same call from the year alone: the loop with the model's own Epoch constructor and the solar
+        # longitude modelled by templates/SunEarth.lean (VSOP87 + FK5 + nutation + aberration)
+        ctx.case('get_equinox_solstice_year', [year, target], out, q=None, klass='season_year/' + klass)
     return j, out, len(rec.jdes)
 
 
